@@ -22,7 +22,8 @@ from common import *  # noqa
 TIE = os.path.join(COQ, "Tie")
 ORDER = ["side_partial_cmp", "ub_partial_cmp", "ub_matches", "ub_try_into_range", "complement_std_range",
          "ub_new", "ub_from_range", "ub_unpack", "ub_complement",
-         "ubl_bounds_only", "ubl_is_sortable", "ubl_is_sorted", "ubl_has_negative_indices", "ubl_is_forward_only"]
+         "ubl_bounds_only", "ubl_is_sortable", "ubl_is_sorted", "ubl_has_negative_indices", "ubl_is_forward_only",
+         "fast_try_from", "stream_try_from"]
 DEPS = {"ub_partial_cmp": ["side_partial_cmp"], "ub_from_range": ["ub_new"], "ub_unpack": ["ub_new", "ub_try_into_range"],
         "ub_complement": ["ub_try_into_range", "complement_std_range", "ub_from_range", "ub_new"],
         "ubl_is_sortable": ["ubl_bounds_only"], "ubl_is_sorted": ["ubl_bounds_only", "ub_partial_cmp", "side_partial_cmp"],
@@ -44,6 +45,8 @@ USES = {
     "ubl_is_sorted": ["C03", "C05", "C19"],
     "ubl_has_negative_indices": ["C05", "C19"],
     "ubl_is_forward_only": ["C03", "C05", "C19"],
+    "fast_try_from": ["C02", "C19"],
+    "stream_try_from": ["C03", "C19"],
 }
 LEMMA = {n: "tie_" + n for n in ORDER}
 
@@ -95,9 +98,11 @@ def tie_check():
     model_vos = [os.path.join(COQ, "Model", "Bounds.vo"), os.path.join(COQ, "Proofs", "C15.vo"), os.path.join(COQ, "Proofs", "C09.vo"),
                  os.path.join(COQ, "Proofs", "BoundsFacts.vo")]
     base = []
-    for b in ("RsPrelude", "TieBase"):
+    model_vos += [os.path.join(COQ, "Model", "Stream.vo"), os.path.join(COQ, "Model", "FastLane.vo"), os.path.join(COQ, "Proofs", "C19.vo"),
+                  os.path.join(COQ, "Proofs", "C03Full.vo")]
+    for b in ("RsPrelude", "TieBase", "RsOpt"):
         src = os.path.join(TIE, b + ".v")
-        if not _fresh(b, [src] + model_vos[:1] + base):
+        if not _fresh(b, [src] + (model_vos[:1] if b != "RsOpt" else [model_vos[0], model_vos[4]]) + base):
             rc, out = _coqc(b)
             if rc != 0:
                 raise BuildError("Tie/%s.v does not compile:\n%s" % (b, out[-2000:]))
